@@ -135,6 +135,48 @@ def run_noise(c, arr, lazy):
         return ["err", err_kind(e)]
 
 
+def predict_lazy(c, arr, chunks):
+    """Independent prediction of a seeded lazy result with the real RNG: every block is the eager transform of that block's
+    sub-array, dose block and seed block, drawn from SeedSequence(seed of the block, spawn_key = block position).
+    Returns None when the seeds are not known to the caller (seed=None)."""
+    from abtem.inelastic.phonons import validate_seeds
+
+    if c["seed"] is None:
+        return None
+    doses = [np.float32(d) for d in c["dose"]] if isinstance(c["dose"], list) else None
+    seeds = [int(v) for v in validate_seeds(c["seed"], c["samples"])] if c["samples"] > 1 else None
+    ch = [list(x) for x in chunks]
+    cd = ch.pop(0) if doses is not None else [1]
+    cs = ch.pop(0) if seeds is not None else [1]
+    ci = ch.pop(0)
+    n, h, w = arr.shape
+    out = np.zeros(((len(doses),) if doses is not None else ()) + ((len(seeds),) if seeds is not None else ()) + (n, h, w), dtype=np.float32)
+    d0 = 0
+    for a, nd in enumerate(cd):
+        s0 = 0
+        for b, ns in enumerate(cs):
+            i0 = 0
+            for k, ni in enumerate(ci):
+                bid = ([a] if doses is not None else []) + ([b] if seeds is not None else []) + [k, 0, 0]
+                spawn = tuple(bid) if any(bid) else ()
+                blk_seed = sum(seeds[s0:s0 + ns]) if seeds is not None else c["seed"]
+                rs = np.random.RandomState(int(np.random.default_rng(np.random.SeedSequence(blk_seed, spawn_key=spawn)).integers(np.iinfo(np.int32).max)))
+                sub = arr[i0:i0 + ni].astype(np.float32)
+                if seeds is not None:
+                    sub = np.tile(sub[None], (ns, 1, 1, 1))
+                if doses is not None:
+                    sub = sub[None] * np.array(doses[d0:d0 + nd], dtype=np.float32).reshape((-1,) + (1,) * sub.ndim)
+                else:
+                    sub = sub * np.float32(c["dose"])
+                res = rs.poisson(np.clip(sub, 0.0, None)).astype(np.float32)
+                idx = ((slice(d0, d0 + nd),) if doses is not None else ()) + ((slice(s0, s0 + ns),) if seeds is not None else ()) + (slice(i0, i0 + ni),)
+                out[idx] = res
+                i0 += ni
+            s0 += ns
+        d0 += nd
+    return out
+
+
 def case_array(c):
     n, h, w = c["shape"]
     return np.array(c["values"], dtype=np.float32).reshape(n, h, w)
@@ -300,6 +342,12 @@ class C31(Property):
             if c["seed"] is not None:
                 if l2[0] != "ok" or not np.array_equal(l2[1], la):
                     ctx.violation("lazy-not-reproducible", c, {}); return
+                # the lazy result must be exactly: each block = eager transform of that block with its own spawned stream
+                pred = predict_lazy(c, arr, l[2])
+                ctx.count("lazy-predicted-per-block" if pred is not None else "lazy-not-predictable")
+                if pred is not None and not np.array_equal(la, pred):
+                    ctx.violation("lazy-block-is-not-the-eager-transform-of-that-block-with-its-spawned-stream", c,
+                                  {"chunks": l[2], "differing_entries": int((la != pred).sum())}); return
                 if not np.array_equal(la, ea):
                     ctx.violation("seeded-lazy-single-block-differs-from-eager" if nblocks == 1 else "seeded-lazy-multiblock-differs-from-eager",
                                   c, {"blocks": nblocks, "chunks": l[2], "differing_entries": int((la != ea).sum())})
